@@ -210,12 +210,24 @@ def crash_sig(o):
     return (o or "")[:60]
 
 # ---------------------------------------------------------------- running
-def run_parallel(ctx, exe, lines, workers=4, chunk=400):
+def run_chunk(ctx, exe, lines, timeout):
+    """run_c_bisect with hang isolation: a chunk that exceeds the timeout is split until the hanging line is alone"""
+    import subprocess
+    try:
+        return ctx.run_c_bisect(exe, lines, env=RUN_ENV, timeout=timeout)
+    except subprocess.TimeoutExpired:
+        if len(lines) == 1: return ["CRASH timeout: no answer within %ds (hang)" % timeout], 1
+        mid = len(lines) // 2
+        a, ca = run_chunk(ctx, exe, lines[:mid], timeout)
+        b, cb = run_chunk(ctx, exe, lines[mid:], timeout)
+        return a + b, ca + cb
+
+def run_parallel(ctx, exe, lines, workers=4, chunk=400, timeout=40):
     if not lines: return [], 0
     chunks = [lines[i:i + chunk] for i in range(0, len(lines), chunk)]
     outs = []; crashes = 0
     with ThreadPoolExecutor(workers) as ex:
-        for o, c in ex.map(lambda ch: ctx.run_c_bisect(exe, ch, env=RUN_ENV), chunks):
+        for o, c in ex.map(lambda ch: run_chunk(ctx, exe, ch, timeout), chunks):
             outs += o; crashes += c
     return outs, crashes
 
